@@ -100,3 +100,39 @@ V_ASSIGNS(g.memnew_calls, g.ref_calls, g.ref_arg)
 V_ENSURES(V_IMP(!g_alloc_fails, V_RET != NULL && V_RET->src == src && V_RET->evt.type == (src ? src->type : M_SRC_TYPE_PS)))                  /*@C02.event-for-a-message-without-subscription*/
 V_ENSURES(V_IMP(!g_alloc_fails && src != NULL, g.ref_calls == V_OLD(g.ref_calls) + 1 && __CPROVER_pointer_equals(g.ref_arg, (void *)src)))                            /*@C04.event-holds-a-reference-on-its-source*/
 ;
+
+#ifdef V_BT_UNIT
+/* m_mod_set_batch_timeout(): the internal batch timer is replaced; timed batching alone is switched on with the sentinel size SIZE_MAX */
+V_CONTRACT
+int m_mod_src_deregister_tmr(m_mod_t *mod, const m_src_tmr_t *its)
+V_REQUIRES(mod == g_mod && its != NULL)
+V_ASSIGNS(g.deregtmr_calls, g.deregtmr_arg, g.deregtmr_ns, g_mod->tb.tokens)
+V_ENSURES(g.deregtmr_calls == V_OLD(g.deregtmr_calls) + 1 && __CPROVER_pointer_equals(g.deregtmr_arg, its) && g.deregtmr_ns == its->ns && g_mod->tb.tokens <= V_OLD(g_mod->tb.tokens))
+;
+V_CONTRACT
+int m_mod_src_register_tmr(m_mod_t *mod, const m_src_tmr_t *its, m_src_flags flags, const void *userptr)
+V_REQUIRES(mod == g_mod && its != NULL)
+V_ASSIGNS(g.regtmr_calls, g.regtmr_arg, g.regtmr_flags, g.regtmr_up, g.regtmr_ns, g_mod->tb.tokens)
+V_ENSURES(V_RET == g_regtmr_ret && g.regtmr_calls == V_OLD(g.regtmr_calls) + 1 && __CPROVER_pointer_equals(g.regtmr_arg, its) && g.regtmr_flags == flags && __CPROVER_pointer_equals(g.regtmr_up, userptr) && g.regtmr_ns == its->ns
+          && g_mod->tb.tokens <= V_OLD(g_mod->tb.tokens))
+;
+V_CONTRACT
+int m_mod_set_batch_timeout(m_mod_t *mod, uint64_t timeout_ns)
+V_REQUIRES(V_MODREQ(mod))
+V_ASSIGNS(V_G_MOD(mod): g.deregtmr_calls, g.deregtmr_arg, g.deregtmr_ns, g.regtmr_calls, g.regtmr_arg, g.regtmr_flags, g.regtmr_up, g.regtmr_ns, g_mod->tb.tokens, g_mod->batch.timer, g_mod->batch.len)
+V_ENSURES(V_IMP(!V_G_MOD(mod), V_RET < 0))
+/* a previously configured batch timer is removed (looked up by its old period) before the new period is stored */
+V_ENSURES(V_IMP(V_G_MOD(mod), g.deregtmr_calls == V_OLD(g.deregtmr_calls) + (V_OLD(g_mod->batch.timer.ns) != 0 ? 1 : 0)
+                && V_IMP(V_OLD(g_mod->batch.timer.ns) != 0, g.deregtmr_arg == &g_mod->batch.timer && g.deregtmr_ns == V_OLD(g_mod->batch.timer.ns))))      /*@C13.old-batch-timer-removed-on-reconfiguration*/
+/* a non-zero timeout: an internal high-priority timer with exactly that period, keyed by the module's batch record (push_evt() flushes on it);
+ * a module that batches by time only gets the sentinel size so that the count never triggers */
+V_ENSURES(V_IMP(V_G_MOD(mod) && timeout_ns != 0, V_RET == g_regtmr_ret && g_mod->batch.timer.ns == timeout_ns && g_mod->batch.timer.clock_id == CLOCK_MONOTONIC
+                && g.regtmr_calls == V_OLD(g.regtmr_calls) + 1 && g.regtmr_arg == &g_mod->batch.timer && g.regtmr_up == (const void *)&g_mod->batch && g.regtmr_ns == timeout_ns
+                && (g.regtmr_flags & M_SRC_INTERNAL) && (g.regtmr_flags & M_SRC_PRIO_HIGH)
+                && g_mod->batch.len == (V_OLD(g_mod->batch.len) == 0 ? SIZE_MAX : V_OLD(g_mod->batch.len))))                                                 /*@C13.batch-timeout-armed-with-the-configured-period*/
+/* timeout 0 switches timed batching off: no timer is left, and a module whose ONLY batching was the timeout (sentinel size) is back to
+ * "neither a batch size nor a batch timeout configured": every normal event is delivered at once again */
+V_ENSURES(V_IMP(V_G_MOD(mod) && timeout_ns == 0, V_RET == 0 && g_mod->batch.timer.ns == 0 && g.regtmr_calls == V_OLD(g.regtmr_calls)
+                && g_mod->batch.len == (V_OLD(g_mod->batch.len) == SIZE_MAX ? 0 : V_OLD(g_mod->batch.len))))                                                 /*@C13.timeout-zero-leaves-no-batching-behind*/
+;
+#endif
